@@ -25,7 +25,7 @@ try:
             continue
         out = subprocess.run(['/verif/bin/govc', 'dev'] + d['funcs'].split(), capture_output=True, text=True, env=env).stdout
         subprocess.check_call(['patch', '-R', '-p1', '-s', '-d', scratch, '-i', patch])
-        fails = [l.split()[-2] for l in out.splitlines() if l.strip().startswith('FAIL')]
+        fails = [l.split()[-2] for l in out.splitlines() if l.strip().startswith('FAIL') and '/aux/' not in l]
         unsup = [l.strip() for l in out.splitlines() if 'UNSUPPORTED' in l or 'load error' in l]
         if d['expect'] == 'none':
             ok = not fails and not unsup
